@@ -20,8 +20,8 @@ def fmtByName (n : String) : Option Fmt := formats.find? (·.name == n)
 
 def showBytes (bs : List UInt8) : String := String.ofList (bs.map fun b => Char.ofNat b.toNat)
 
-def opImage (fmt : String) (w h : String) (ws : List String) : String :=
-  match fmtByName fmt, w.toNat?, h.toNat?, ws.mapM parseHex with
+def opImageWords (fmt : String) (w h : String) (words? : Option (List Nat)) : String :=
+  match fmtByName fmt, w.toNat?, h.toNat?, words? with
   | some f, some sx, some sy, some words =>
     let wordsPerPixel := if f.compBytes == 1 then 1 else f.stride
     if sx < 1 ∨ sy < 1 ∨ words.length ≠ sx * sy * wordsPerPixel then "bad-op" else
@@ -38,6 +38,25 @@ def opImage (fmt : String) (w h : String) (ws : List String) : String :=
         let digits := if d.maxval.isSome then 2 else 8
         showBytes d.magic ++ " " ++ toString d.w ++ " " ++ toString d.h ++ " " ++ third ++ " :" ++
           String.join (d.samples.map fun v => " " ++ hexN digits v)
+  | _, _, _, _ => "bad-op"
+
+def opImage (fmt : String) (w h : String) (ws : List String) : String :=
+  opImageWords fmt w h (ws.mapM parseHex)
+
+def fnv1a (s : String) : UInt64 :=
+  s.toUTF8.foldl (fun h b => (h ^^^ b.toUInt64) * 1099511628211) 14695981039346656037
+
+/-- `imgpat fmt w h seed`: word i = ((seed + i) * 2654435761) mod 2^32 -/
+def opImagePattern (fmt w h seed : String) : String :=
+  match fmtByName fmt, w.toNat?, h.toNat?, seed.toNat? with
+  | some f, some sx, some sy, some sd =>
+    let wordsPerPixel := if f.compBytes == 1 then 1 else f.stride
+    let n := sx * sy * wordsPerPixel
+    if sx < 1 ∨ sy < 1 ∨ n > 64 * 1048576 then "bad-op" else
+    let words := (List.range n).map fun i => ((sd + i) * 2654435761) % 4294967296
+    let d := opImageWords fmt w h (some words)
+    let hx := hexN 16 (fnv1a d).toNat
+    "digest=" ++ hx ++ " len=" ++ toString d.utf8ByteSize ++ " head=" ++ (d.take 24).toString
   | _, _, _, _ => "bad-op"
 
 /-! trace programs -/
@@ -147,6 +166,7 @@ def opSave (cs : Nat) (s : St) (proc : String) : String :=
 
 def stepSt (cs : Nat) (s : St) : List String → St × String
   | "img" :: fmt :: w :: h :: ws => (s, opImage fmt w h ws)
+  | ["imgpat", fmt, w, h, seed] => (s, opImagePattern fmt w h seed)
   | "thr" :: k :: prog =>
     match k.toNat?, parseProgram prog with
     | some k, some ops => ({ s with progs := addProg s.progs k ops }, "ok")
